@@ -202,7 +202,7 @@ var symRe = regexp.MustCompile(`\|[^|]+\|`)
 // is always sound; it removes e.g. the range and frame axioms of memory
 // versions the obligation never mentions.
 func relevantSteps(steps []string, seed string) []string {
-	if len(steps) < 400 {
+	if len(steps) < 400 || os.Getenv("VCGEN_NOFILTER") != "" {
 		return steps
 	}
 	syms := make([][]string, len(steps))
